@@ -874,7 +874,7 @@ func runC04(c *Ctx) {
 	}
 
 	// ---------- R11 serialise before committing the status ----------
-	c.rule("C04-R11", "ORD: in cmd/glyph/handlers.go a value that may fail to serialise (anything not built locally from constants and basic-typed values) is never encoded straight onto the ResponseWriter (json.Encoder.Encode): it is marshalled first, and in the function that does so no WriteHeader/Write is reachable before json.Marshal, whose err!=nil edge leads to the generic 500 writer — otherwise an unencodable result (NaN, Inf) is reported as the already-committed 2xx")
+	c.rule("C04-R11", "ORD: in cmd/glyph/handlers.go and in the library server (pkg/server) a value that may fail to serialise (anything not built locally from constants and basic-typed values) is never encoded straight onto the ResponseWriter (json.Encoder.Encode): it is marshalled first, and in the function that does so no WriteHeader/Write is reachable before json.Marshal, whose err!=nil edge leads to the generic 500 writer — otherwise an unencodable result (NaN, Inf) is reported as the already-committed 2xx")
 	{
 		encodable := func(v ssa.Value) bool {
 			ok := true
@@ -890,6 +890,12 @@ func runC04(c *Ctx) {
 				case *ssa.MakeInterface:
 					if typeAlwaysEncodable(x.X.Type(), 0) {
 						return
+					}
+					// a response record the HTTP layer declares itself (health report, error envelope) is not a route result
+					if nt := namedOf(derefPtr(x.X.Type())); nt != nil && nt.Obj().Pkg() != nil && nt.Obj().Pkg().Path() == serverPath {
+						if _, isStruct := nt.Underlying().(*types.Struct); isStruct {
+							return
+						}
 					}
 					walk(x.X)
 				case *ssa.MakeMap:
@@ -911,10 +917,16 @@ func runC04(c *Ctx) {
 			return ok
 		}
 		n := 0
+		var r11fns []*ssa.Function
 		for _, fn := range c.srcFuncs(glyphCmd) {
-			if !strings.HasSuffix(c.Fset.Position(fn.Pos()).Filename, "/handlers.go") {
-				continue
+			if strings.HasSuffix(c.Fset.Position(fn.Pos()).Filename, "/handlers.go") {
+				r11fns = append(r11fns, fn)
 			}
+		}
+		// the library server's writers (pkg/server) answer for the same results
+		r11fns = append(r11fns, c.srcFuncs(serverPkg)...)
+		for _, fn := range r11fns {
+			inLib := fn.Pkg != nil && fn.Pkg.Pkg.Path() == serverPath
 			k := 0
 			eachInstr(fn, func(_ *ssa.BasicBlock, _ int, ins ssa.Instruction) {
 				call, ok := ins.(*ssa.Call)
@@ -969,8 +981,26 @@ func runC04(c *Ctx) {
 					for _, b := range fn.Blocks {
 						for si, sblk := range b.Succs {
 							if nonNilOnEdge(b, si, er) {
-								q2 := &pathQuery{fn: fn, target: isReturn, stop: func(x ssa.Instruction) bool {
-									return isCallTo(x, modPath+"/cmd/glyph.writeInternalError")
+								q2 := &pathQuery{fn: fn, target: func(x ssa.Instruction) bool {
+									r, isR := x.(*ssa.Return)
+									if !isR {
+										return false
+									}
+									// the library's writers hand the failure back: the dispatcher answers a handler error with a 500
+									if inLib && len(r.Results) > 0 && !isNilConst(stripConv(retVals(r)[len(r.Results)-1])) {
+										return false
+									}
+									return true
+								}, stop: func(x ssa.Instruction) bool {
+									if isCallTo(x, modPath+"/cmd/glyph.writeInternalError") {
+										return true
+									}
+									if cl, ok := x.(ssa.CallInstruction); ok {
+										if k, ok := statusConstWritten(cl, 0); ok && k >= 500 {
+											return true
+										}
+									}
+									return false
 								}}
 								if h, _ := q2.from(sblk, 0); h == nil {
 									okErr = true
